@@ -1426,6 +1426,7 @@ EGLPNUM_TYPENAME_QSLIB_INTERFACE int EGLPNUM_TYPENAME_QSchange_senses (
 	rval = EGLPNUM_TYPENAME_ILLlib_chgsense (p->lp, num, rowlist, sense);
 	CHECKRVALG (rval, CLEANUP);
 
+	p->factorok = 0;	/* the coefficient of a logical may have changed sign */
 	free_cache (p);
 
 CLEANUP:
@@ -1507,6 +1508,7 @@ EGLPNUM_TYPENAME_QSLIB_INTERFACE int EGLPNUM_TYPENAME_QSchange_coef (
 	rval = EGLPNUM_TYPENAME_ILLlib_chgcoef (p->lp, rowindex, colindex, coef);
 	CHECKRVALG (rval, CLEANUP);
 
+	p->factorok = 0;	/* the basis matrix may have changed */
 	free_cache (p);
 
 CLEANUP:
